@@ -771,53 +771,76 @@ def toyLawful : toy.Lawful where
 
 /-! ### with a send limit (`maxMessagePayloadSize > 0`): sends may be refused after compression -/
 
-/-- the receiving half stands between messages and its inflater (if any) is in sync with SOME deflater state -/
-def DecAtBoundary (L : K.Lawful) (a b : Pmce) (r : Rx K) : Prop :=
-  r.pmce = some b ∧ r.inside = false ∧
-  (r.dec = none ∨ ∃ c d, r.dec = some d ∧ L.Sync a.encWbits b.decWbits c d)
+/-- in step up to a refused send: the deflater may have been dropped (after a refusal) while the inflater still holds
+a context that was in sync with SOME deflater state — a fresh deflater is in sync with it again (`enc_reset`) -/
+def InStepW (L : K.Lawful) (a b : Pmce) (t : Tx K) (r : Rx K) : Prop :=
+  t.pmce = some a ∧ r.pmce = some b ∧ r.inside = false ∧
+  ((t.comp = none ∧ (r.dec = none ∨ ∃ c d, r.dec = some d ∧ L.Sync a.encWbits b.decWbits c d)) ∨
+    ∃ c d, t.comp = some c ∧ r.dec = some d ∧ L.Sync a.encWbits b.decWbits c d)
 
-/-- a deflater that resets for every message is in sync with any inflater standing at a boundary -/
-theorem start_sync_nct (L : K.Lawful) (a b : Pmce) (hc : dirCompatible a b) (he : a.encNct = true)
-    (comp : Option K.CSt) (dec : Option K.DSt)
-    (h : dec = none ∨ ∃ c d, dec = some d ∧ L.Sync a.encWbits b.decWbits c d) :
+theorem InStep.toW {L : K.Lawful} {a b : Pmce} {t : Tx K} {r : Rx K} (h : InStep L a b t r) : InStepW L a b t r := by
+  obtain ⟨h1, h2, h3, h4⟩ := h
+  refine ⟨h1, h2, h3, ?_⟩
+  rcases h4 with ⟨hc, hd⟩ | h
+  · exact Or.inl ⟨hc, Or.inl hd⟩
+  · exact Or.inr h
+
+theorem start_syncW (L : K.Lawful) (a b : Pmce) (hc : dirCompatible a b) (comp : Option K.CSt) (dec : Option K.DSt)
+    (h : (comp = none ∧ (dec = none ∨ ∃ c d, dec = some d ∧ L.Sync a.encWbits b.decWbits c d)) ∨
+      ∃ c d, comp = some c ∧ dec = some d ∧ L.Sync a.encWbits b.decWbits c d) :
     L.Sync a.encWbits b.decWbits (startCompress a comp) (startDecompress b dec) := by
-  have hs : startCompress a comp = K.freshC a.encWbits a.memLevel := by
-    cases comp <;> simp [startCompress, he]
-  rw [hs]
-  rcases h with rfl | ⟨c, d, rfl, hsy⟩
-  · exact L.fresh _ _ _ hc.1
-  · simp only [startDecompress]
-    cases hd : b.decNct with
-    | true => simpa using L.fresh _ _ _ hc.1
-    | false => simpa using L.enc_reset _ _ _ _ _ hsy
+  rcases h with ⟨rfl, hd⟩ | h
+  · rcases hd with rfl | ⟨c, d, rfl, hsy⟩
+    · exact L.fresh _ _ _ hc.1
+    · simp only [startCompress, startDecompress]
+      cases hd : b.decNct with
+      | true => simpa using L.fresh _ _ _ hc.1
+      | false => simpa using L.enc_reset _ _ _ _ _ hsy
+  · exact start_sync L a b hc comp dec (Or.inr h)
 
-/-- `rx_of_compressed` from an explicit sync hypothesis -/
-theorem rx_of_compressed_sync (L : K.Lawful) (a b : Pmce) (t : Tx K) (r : Rx K)
-    (hrb : r.pmce = some b) (hri : r.inside = false)
-    (hsync : L.Sync a.encWbits b.decWbits (startCompress a t.comp) (startDecompress b r.dec))
-    (pieces : List Bytes) (op : Nat) (ho : op = 1 ∨ op = 2) (ws : List WireFrame)
+/-- `rx_of_compressed` from the weaker invariant; afterwards the halves are fully in step again -/
+theorem rx_of_compressedW (L : K.Lawful) (a b : Pmce) (hc : dirCompatible a b) (t : Tx K) (r : Rx K)
+    (hin : InStepW L a b t r) (pieces : List Bytes) (op : Nat) (ho : op = 1 ∨ op = 2) (ws : List WireFrame)
     (htr : Train op 4 (ws.map WireFrame.toFrame))
     (hpl : payloads (ws.map WireFrame.toFrame) =
       (K.compressAll (startCompress a t.comp) pieces).2.flatten
         ++ (endCompress (K.compressAll (startCompress a t.comp) pieces).1).2) :
-    ∃ r', rxAll r ws = some (r', [(op == 2, pieces.flatten)]) ∧ DecAtBoundary L a b r' := by
+    ∃ r', rxAll r ws = some (r', [(op == 2, pieces.flatten)])
+      ∧ InStep L a b { t with comp := some (endCompress (K.compressAll (startCompress a t.comp) pieces).1).1 } r' := by
+  obtain ⟨hta, hrb, hri, hs⟩ := hin
+  have hsync := start_syncW L a b hc t.comp r.dec hs
   obtain ⟨body, hfl, hall⟩ := L.message _ _ _ _ pieces hsync
   have hbody : (endCompress (K.compressAll (startCompress a t.comp) pieces).1).2 = body := by
     simp only [endCompress, hfl, strip_tail]
   rw [hbody] at hpl
   obtain ⟨d1, hfeed, d2, o, htail, hs2⟩ := hall (allChunks ws) (by rw [allChunks_flatten, hpl])
   obtain ⟨r', hrx, hp', hi', hd'⟩ := rx_compressed_train b r ws op pieces.flatten d1 d2 o hrb hri ho htr hfeed htail
-  exact ⟨r', hrx, hp', hi', Or.inr ⟨_, d2, hd', hs2⟩⟩
+  exact ⟨r', hrx, hta, hp', hi', Or.inr ⟨_, d2, rfl, hd', by simpa [endCompress] using hs2⟩⟩
 
-theorem send_recv_one_limit (L : K.Lawful) (a b : Pmce) (hc : dirCompatible a b) (he : a.encNct = true)
-    (maxPayload : Nat) (t : Tx K) (r : Rx K) (hta : t.pmce = some a) (hin : DecAtBoundary L a b r)
+/-- what is left of `InStepW` when the sender drops its deflater and the receiver is untouched -/
+theorem InStepW.drop {L : K.Lawful} {a b : Pmce} {t : Tx K} {r : Rx K} (h : InStepW L a b t r) :
+    InStepW L a b { t with comp := none } r := by
+  obtain ⟨h1, h2, h3, h4⟩ := h
+  refine ⟨h1, h2, h3, Or.inl ⟨rfl, ?_⟩⟩
+  rcases h4 with ⟨_, hd⟩ | ⟨c, d, _, hd, hs⟩
+  · exact hd
+  · exact Or.inr ⟨c, d, hd, hs⟩
+
+/-- the receiver's inflater untouched: the invariant carries over -/
+theorem InStepW.same_dec {L : K.Lawful} {a b : Pmce} {t : Tx K} {r r' : Rx K} (h : InStepW L a b t r)
+    (hp : r'.pmce = some b) (hi : r'.inside = false) (hd : r'.dec = r.dec) : InStepW L a b t r' := by
+  obtain ⟨h1, _, _, h4⟩ := h
+  exact ⟨h1, hp, hi, by rw [hd]; exact h4⟩
+
+theorem send_recv_one_limit (L : K.Lawful) (a b : Pmce) (hc : dirCompatible a b)
+    (maxPayload : Nat) (t : Tx K) (r : Rx K) (hin : InStepW L a b t r)
     (m : Msg) (hwf : m.wf) (ws : List WireFrame)
     (hw : ws.map WireFrame.toFrame = (sendOne t maxPayload m).2.1) :
-    (sendOne t maxPayload m).1.pmce = some a ∧
     ∃ r', rxAll r ws = some (r', if (sendOne t maxPayload m).2.2 then [(m.bin, m.data)] else [])
-      ∧ DecAtBoundary L a b r' := by
-  obtain ⟨hrb, hri, hs⟩ := hin
-  have hsync := start_sync_nct L a b hc he t.comp r.dec hs
+      ∧ InStepW L a b (sendOne t maxPayload m).1 r' := by
+  have hta := hin.1
+  have hrb := hin.2.1
+  have hri := hin.2.2.1
   cases m with
   | whole bin dnc frag payload =>
     simp only [Msg.wf] at hwf
@@ -829,13 +852,12 @@ theorem send_recv_one_limit (L : K.Lawful) (a b : Pmce) (hc : dirCompatible a b)
       by_cases hlim : 0 < maxPayload ∧ maxPayload <
           ((K.compress (startCompress a t.comp) payload).2
             ++ (endCompress (K.compress (startCompress a t.comp) payload).1).2).length
-      · have hso : sendOne t maxPayload (.whole bin false frag payload) =
-            ({ t with comp := some (endCompress (K.compress (startCompress a t.comp) payload).1).1 }, [], false) := by
+      · have hso : sendOne t maxPayload (.whole bin false frag payload) = ({ t with comp := none }, [], false) := by
           simp only [sendOne, sendMessage, hta, hlim, and_self, if_true]
         rw [hso] at hw ⊢
         simp only [List.map_eq_nil_iff] at hw
         subst hw
-        exact ⟨hta, r, by simp [rxAll], hrb, hri, hs⟩
+        exact ⟨r, by simp [rxAll], hin.drop⟩
       · have hso : sendOne t maxPayload (.whole bin false frag payload) =
             ({ t with comp := some (endCompress (K.compress (startCompress a t.comp) payload).1).1 }, fs, true) := by
           simp only [sendOne, sendMessage, hta, hlim, if_false, hfs]
@@ -843,9 +865,10 @@ theorem send_recv_one_limit (L : K.Lawful) (a b : Pmce) (hc : dirCompatible a b)
         obtain ⟨htr, hpl⟩ := fragment_train _ _ _ _ _ hfs
         simp only at hw
         rw [← hw] at htr hpl
-        obtain ⟨r', h1, h2⟩ := rx_of_compressed_sync L a b t r hrb hri hsync [payload] (opcodeOf bin) (opcodeOf_ok bin)
+        obtain ⟨r', h1, h2⟩ := rx_of_compressedW L a b hc t r hin [payload] (opcodeOf bin) (opcodeOf_ok bin)
           ws htr (by simpa [Codec.compressAll] using hpl)
-        exact ⟨hta, r', by simpa [opcodeOf_bin, Msg.bin, Msg.data] using h1, h2⟩
+        refine ⟨r', by simpa [opcodeOf_bin, Msg.bin, Msg.data] using h1, ?_⟩
+        simpa [Codec.compressAll] using h2.toW
     | true =>
       obtain ⟨fs, hfs⟩ := fragment_isSome frag (opcodeOf bin) 0 payload hwf
       by_cases hlim : 0 < maxPayload ∧ maxPayload < payload.length
@@ -854,7 +877,7 @@ theorem send_recv_one_limit (L : K.Lawful) (a b : Pmce) (hc : dirCompatible a b)
         rw [hso] at hw ⊢
         simp only [List.map_eq_nil_iff] at hw
         subst hw
-        exact ⟨hta, r, by simp [rxAll], hrb, hri, hs⟩
+        exact ⟨r, by simp [rxAll], hin⟩
       · have hso : sendOne t maxPayload (.whole bin true frag payload) = (t, fs, true) := by
           simp only [sendOne, sendMessage, hta, hlim, if_false, hfs]
         rw [hso] at hw ⊢
@@ -862,9 +885,8 @@ theorem send_recv_one_limit (L : K.Lawful) (a b : Pmce) (hc : dirCompatible a b)
         simp only at hw
         rw [← hw] at htr hpl
         obtain ⟨r', h1, hp', hi', hd'⟩ := rx_plain_train b r ws (opcodeOf bin) hrb hri (opcodeOf_ok bin) htr
-        refine ⟨hta, r', ?_, hp', hi', ?_⟩
-        · simpa [opcodeOf_bin, Msg.bin, Msg.data, hpl] using h1
-        · rw [hd']; exact hs
+        refine ⟨r', ?_, hin.same_dec hp' hi' hd'⟩
+        simpa [opcodeOf_bin, Msg.bin, Msg.data, hpl] using h1
   | stream bin dnc pieces =>
     simp only [Msg.wf] at hwf
     cases dnc with
@@ -887,9 +909,9 @@ theorem send_recv_one_limit (L : K.Lawful) (a b : Pmce) (hc : dirCompatible a b)
           (endCompress (K.compressAll (startCompress a t.comp) pieces).1).2
         simp only at hw
         rw [← hw] at htr hpl
-        obtain ⟨r', h1, h2⟩ := rx_of_compressed_sync L a b t r hrb hri hsync pieces (opcodeOf bin) (opcodeOf_ok bin)
+        obtain ⟨r', h1, h2⟩ := rx_of_compressedW L a b hc t r hin pieces (opcodeOf bin) (opcodeOf_ok bin)
           ws htr (by rw [hpl, hout]; simp)
-        exact ⟨hta, r', by simpa [opcodeOf_bin, Msg.bin, Msg.data] using h1, h2⟩
+        exact ⟨r', by simpa [opcodeOf_bin, Msg.bin, Msg.data] using h1, h2.toW⟩
     | true =>
       cases pieces with
       | nil => exact absurd rfl hwf
@@ -902,29 +924,27 @@ theorem send_recv_one_limit (L : K.Lawful) (a b : Pmce) (hc : dirCompatible a b)
         simp only at hw
         rw [← hw] at htr hpl
         obtain ⟨r', h1, hp', hi', hd'⟩ := rx_plain_train b r ws (opcodeOf bin) hrb hri (opcodeOf_ok bin) htr
-        refine ⟨hta, r', ?_, hp', hi', ?_⟩
-        · simpa [opcodeOf_bin, Msg.bin, Msg.data, hpl] using h1
-        · rw [hd']; exact hs
+        refine ⟨r', ?_, hin.same_dec hp' hi' hd'⟩
+        simpa [opcodeOf_bin, Msg.bin, Msg.data, hpl] using h1
 
-theorem send_recv_all_limit (L : K.Lawful) (a b : Pmce) (hc : dirCompatible a b) (he : a.encNct = true)
-    (maxPayload : Nat) :
-    ∀ (msgs : List Msg) (t : Tx K) (r : Rx K), t.pmce = some a → DecAtBoundary L a b r → (∀ m ∈ msgs, m.wf) →
+theorem send_recv_all_limit (L : K.Lawful) (a b : Pmce) (hc : dirCompatible a b) (maxPayload : Nat) :
+    ∀ (msgs : List Msg) (t : Tx K) (r : Rx K), InStepW L a b t r → (∀ m ∈ msgs, m.wf) →
       ∀ ws : List WireFrame, ws.map WireFrame.toFrame = (sendAll t maxPayload msgs).2.1 →
         ∃ r', rxAll r ws = some (r', (sendAll t maxPayload msgs).2.2) := by
   intro msgs
   induction msgs with
   | nil =>
-    intro t r _ _ _ ws hw
+    intro t r _ _ ws hw
     simp only [sendAll, List.map_eq_nil_iff] at hw
     subst hw
     exact ⟨r, rfl⟩
   | cons m ms ih =>
-    intro t r hta hin hwf ws hw
+    intro t r hin hwf ws hw
     simp only [sendAll] at hw ⊢
     obtain ⟨w1, w2, rfl, h1, h2⟩ := List.map_eq_append_iff.1 hw
-    obtain ⟨hta1, r1, hrx1, hin1⟩ := send_recv_one_limit L a b hc he maxPayload t r hta hin m
+    obtain ⟨r1, hrx1, hin1⟩ := send_recv_one_limit L a b hc maxPayload t r hin m
       (hwf m (List.mem_cons_self ..)) w1 h1
-    obtain ⟨r2, hrx2⟩ := ih (sendOne t maxPayload m).1 r1 hta1 hin1 (fun x hx => hwf x (List.mem_cons_of_mem _ hx)) w2 h2
+    obtain ⟨r2, hrx2⟩ := ih (sendOne t maxPayload m).1 r1 hin1 (fun x hx => hwf x (List.mem_cons_of_mem _ hx)) w2 h2
     refine ⟨r2, ?_⟩
     rw [rxAll_append, hrx1]
     simp only [hrx2]
